@@ -506,3 +506,12 @@ def _fs_event(sim: Sim, t: Task, what: str, rel: str, write: bool, tree: bool) -
     sim.sched_point(("fs", what, rel))
     # the access happens right after we are scheduled again
     sim.fs_accesses.append((rel, write, tree, t.tid, dict(t.vc), t.name, what))
+    plan = sim.faults.get("fs_errno")
+    if plan is not None and write:
+        k = sim.next_id("fs_mutation")
+        at, code, name, sticky = plan
+        if k == at or (sticky and k > at):
+            fired = sim.faults.setdefault("_fired", {})
+            fired[name] = fired.get(name, 0) + 1
+            sim.log.append(("note", "fault", name, what, rel, t.name))
+            raise OSError(code, os.strerror(code), rel)
